@@ -425,12 +425,12 @@ def hyp_part(n_examples, shard, steps):
 
 def run(tier, t0):
     if tier == "quick":
-        part = runner.hyp_shards("vf.props.c18", "hyp_part", 1600, args=(30,))
-        part.merge(runner.hyp_shards("vf.props.c18", "shared_part", 1600))
+        part = runner.hyp_shards("vf.props.c18", "hyp_part", 3600, args=(30,))
+        part.merge(runner.hyp_shards("vf.props.c18", "shared_part", 3200))
     else:
         part = runner.hyp_shards("vf.props.c18", "hyp_part", 32000, args=(50,))
         part.merge(runner.hyp_shards("vf.props.c18", "shared_part", 64000))
-    for p in runner.parallel("vf.props.c18", "others_part", [(sh, 12 if tier == "quick" else 200, runner.SEED) for sh in range(runner.NPROC)]):
+    for p in runner.parallel("vf.props.c18", "others_part", [(sh, 24 if tier == "quick" else 200, runner.SEED) for sh in range(runner.NPROC)]):
         part.merge(p)
     rule = ("one accepted vector per case (any version, any spelling) and a generated sequence of operations: each public "
             "accessor (scores, severities, clean_vector in both modes, rh_vector, sub-vectors, as_json with each option pair, "
